@@ -197,6 +197,9 @@ def _callers_validate(E, R, rule, fn, hb, sname):
                 v, w = _local_validated(E, hc, nm)
                 good = v == "ok"
                 whys.append(w)
+            elif a.get("k") == "Call" and norm(a.get("callee", "")) == "lex::span":
+                good, w = _span_validated(E, hc, a)
+                whys.append(w)
         if not good:
             return "violation", "caller %s passes unvalidated text" % norm(hc["path"])
     return "ok", "every caller passes digit-validated text: " + "; ".join(whys)
@@ -275,7 +278,8 @@ def rule_radix(E, R):
         for x in S.sites():
             n = x.node
             if n.get("k") == "Call" and norm(n.get("callee", "")) == "rhs_types::int::parse_number":
-                got[lit_value(n["args"][1])] = desc_of(x.pc)
+                radix_ = [lit_value(a_) for a_ in n["args"] if isinstance(lit_value(a_), int)]
+                got[radix_[-1] if radix_ else None] = desc_of(x.pc)
             if n.get("k") == "Call" and norm(n.get("callee", "")) == "lex::expect" and lit_value(n["args"][1]) == "-":
                 neg_in.add(desc_of(x.pc))
         want = {16: (("0x", True),), 8: (("0x", False), ("lead0", True)), 10: (("0x", False), ("lead0", False))}
